@@ -1538,7 +1538,10 @@ def search(run: Run):
             compare(sub, cases[i:i + 20000], record=False)
         hs = hist_search_cases()
         compare_hist(sub, hs, record=False)
-        cases = cases + hs
+        import random as _r
+        ext = [dict(c) for c in EXT_CORPUS] + gen_ext_cases(_r.Random(11), 6000) + gen_dur_cases(_r.Random(12), 4000) + gen_lex_cases(_r.Random(13), 4000)
+        compare(sub, ext, record=False)
+        cases = cases + hs + ext
         found = sub.disagreements
         how = 'Lean spec'
     except Exception as e:   # driver not buildable: python reference as the oracle
@@ -1660,11 +1663,13 @@ def body(run: Run) -> int:
         'the XSD/F&O reading in EPV/Spec/Timeline.lean (astronomical years, instants in µs, implicit timezone Z)']
     run.assumptions += [
         'years within ±2^31 and durations within ±2^62 s (constructor limits of the library, accepted)',
-        'known finding F11n: value comparisons ignore the implicit timezone of the dynamic context (UTC is used); '
+        'known finding F11o: xs:time ± duration whose proxy date leaves years 1..9999 raises FODT0001; known finding F11r: 24:00:00 with a '
+        'fraction that is non-zero only below the microsecond is accepted; '
         'known finding F11d: timeline offsets beyond the timedelta range (|days| > 999999999, |year| ≳ 2.7 million) '
         'raise OverflowError (FODT0001 through XPath); theorems carry the hypothesis TdOk',
-        'adjust-time-to-timezone, format-dateTime, the system-clock implicit timezone, gYear..gDay and xs:time '
-        'arithmetic are not modelled']
+        'durations: × ÷ by xs:double through the datatypes API uses binary64 products (computed by the harness with Python floats, '
+        'trusted IEEE-754), through XPath the double is first converted to its exact decimal; Decimal products stay within 28 digits '
+        'in the generated range; format-dateTime and the system-clock implicit timezone are not modelled']
     if getattr(run, 'replay', None):
         data = json.loads(Path(run.replay).read_text())
         fi = data.get('failing_input') or {}
@@ -1682,7 +1687,7 @@ def body(run: Run) -> int:
             return 1 if ds else 0
         print('replay file has no failing input; broken:', data.get('broken'))
         return 1
-    run.prove(['EPV.Props.C11'], ['EPV.Lemmas.CalendarOps', 'EPV.Spec.Timeline', 'EPV.Model.Calendar', 'EPV.Proto'])
+    run.prove(['EPV.Props.C11'], ['EPV.Lemmas.CalendarTime', 'EPV.Model.CalendarLex', 'EPV.Spec.Timeline', 'EPV.Model.Calendar', 'EPV.Proto'])
     try:
         correspond(run)
     except DriverError as e:
